@@ -122,11 +122,9 @@ impl Iterator for AnsiElementIterator<'_> {
 // Based on https://github.com/alacritty/vte/blob/v0.9.0/examples/parselog.rs
 impl anstyle_parse::Perform for Performer {
     fn csi_dispatch(&mut self, params: &Params, intermediates: &[u8], ignore: bool, byte: u8) {
-        if ignore || intermediates.len() > 1 {
-            return;
-        }
-
-        let is_sgr = byte == b'm' && intermediates.is_empty();
+        // A sequence the parser flags `ignore`, or with more than one intermediate, is still an
+        // escape sequence: report it as a generic CSI element so that its bytes are accounted for.
+        let is_sgr = byte == b'm' && intermediates.is_empty() && !ignore;
         let element = if is_sgr {
             if params.is_empty() {
                 // Attr::Reset
